@@ -98,7 +98,8 @@ class _Work:
         lm = dict(lmap_fixed)
         for i, l in enumerate(cb.locals):
             if i not in lm:
-                lm[i] = self.new_local(l["ty"], l.get("name"))
+                self.locals.append(dict(l))          # keep every attribute of the local (name, user-declared, ...)
+                lm[i] = len(self.locals) - 1
 
         def lmap(i):
             return lm[i]
@@ -107,6 +108,7 @@ class _Work:
             return base + i
         for blk in cb.blocks:
             nb = _remap(blk, lmap)
+            nb.setdefault("from", cb.def_)        # the body this block was written in (innermost helper)
             t = nb["term"]
             k = t["k"]
             _remap_term_blocks(t, bmap, unwind_to)
